@@ -4018,8 +4018,11 @@ void NifFile::DeleteShape(NiShape* shape) {
 	if (!shape)
 		return;
 
-	if (shape->HasData())
-		hdr.DeleteBlock(*shape->DataRef());
+	if (shape->HasData()) {
+		// The data block can be shared: other shapes keep a cached pointer to it
+		if (hdr.GetBlockRefCount(shape->DataRef()->index, false) == 1)
+			hdr.DeleteBlock(*shape->DataRef());
+	}
 
 	if (shape->HasShaderProperty()) {
 		if (hdr.GetBlockRefCount(shape->ShaderPropertyRef()->index, false) == 1)
